@@ -53,14 +53,17 @@ def det(cdelt, pc):
     return cdelt[0] * cdelt[1] * (pc[0] * pc[3] - pc[1] * pc[2])
 
 
-def headers(rng, n_random):
+def headers(rng, n_random, every_pc_form=1):
     """(cdelt, pc) pairs: all non-singular sign/permutation/shear matrices over {-1,0,1}, exact (Pythagorean) rotations in
     both parities with isotropic and anisotropic scales, skews, and seeded integer matrices."""
     out = []
+    n = 0
     for pc in itertools.product((-1, 0, 1), repeat=4):
         if det((1, 1), pc) != 0:
             out.append(((1, 1), pc))                       # built as a CD matrix
-            out.append(((-1, 1), pc))                      # built as PC + CDELT (identity PC: the plain CDELT-only header)
+            if n % every_pc_form == 0 or pc == (1, 0, 0, 1):
+                out.append(((-1, 1), pc))                  # built as PC + CDELT (identity PC: the plain CDELT-only header)
+            n += 1
     for a, b in ((3, 4), (4, 3), (5, 12), (15, 8), (7, 24), (20, 21)):
         for mirror in (1, -1):
             pc = (a, -b * mirror, b, a * mirror)          # rotation (times the hypotenuse), optionally mirrored
@@ -350,9 +353,8 @@ def run(ctx):
                 "the harness (headers: all 48 non-singular matrices over {-1,0,1} in CD and in PC+CDELT form, exact rotations in both parities with isotropic / "
                 "anisotropic / RA-reversed scales, skews, seeded integer matrices); every case is replayed: flip, flip, and on a fresh "
                 "object ensure, ensure. distinct = distinct case; every case is non-trivial (non-singular WCS, >= 1 pixel)")
-    kinds = ["image", "pil", "desc"]
     if ctx.quick:
-        hdrs = headers(ctx.rng, 16)
+        hdrs = headers(ctx.rng, 10, every_pc_form=2)
         widths, heights = [1, 3], [1, 2, 5]
         refx = [3]
         refy = [(2, 0), (1, 1), (-3, 0), (5, 2)]
@@ -362,12 +364,16 @@ def run(ctx):
         refx = [3, -5]
         refy = [(2, 0), (1, 1), (-3, 0), (5, 2), (3, 0), (0, 2), (2, 1)]
     # refy (a, b): doubled CRPIX2 = a + b*h : first row; image centre; below the image; above it; row 1.5; the last row; row h/2+1
-    r = ctx.tlc("MCParity", extra={"MCParity.tla": mc_module(kinds, widths, heights, hdrs, refx, refy)}, cfg_text=CFG,
-                workers=8, timeout=3000)
-    recs = r.json_lines("R")
-    n_expected = len(kinds) * len(widths) * len(hdrs) * len(refx) * sum(len({a + b * h for a, b in refy}) for h in heights)
-    if len(recs) != n_expected:
-        ctx.machinery("TLC emitted %d cases, expected %d" % (len(recs), n_expected))
+    # PIL-backed objects (with the Touch action) on every 4th header: the backing does not interact with the matrix entries
+    recs = []
+    for kinds, hd in ((["image", "desc"], hdrs), (["pil"], hdrs[::4])):
+        r = ctx.tlc("MCParity", extra={"MCParity.tla": mc_module(kinds, widths, heights, hd, refx, refy)}, cfg_text=CFG,
+                    workers=8, timeout=3000)
+        got = r.json_lines("R")
+        n_expected = len(kinds) * len(widths) * len(hd) * len(refx) * sum(len({a + b * h for a, b in refy}) for h in heights)
+        if len(got) != n_expected:
+            ctx.machinery("TLC emitted %d cases, expected %d" % (len(got), n_expected))
+        recs += got
     recs.sort(key=lambda q: (q["orig"]["kind"], q["orig"]["w"], q["orig"]["h"], q["orig"]["cdelt"], q["orig"]["pc"], q["orig"]["p"]))
     # png files for the ImageLoader-backed objects (one per size; written before the pool starts)
     import numpy as np
